@@ -2,6 +2,7 @@ import SvModel.Core.Pp
 import SvModel.Gen.PpKinds
 import SvModel.Lemmas.Walker
 import SvModel.Lemmas.IgnoreInc
+import SvModel.Lemmas.DefinesMap
 /-!
 # C10 / C11 / C09 / C18 — decision logic of the walker, stated outright
 
@@ -262,5 +263,13 @@ theorem C10_ignore_include_as_if_no_files (K : PpKinds) (g : Grammar) (fs : Fs) 
     (s path : Bytes) (d : Defines) (sc : Bool) (rd id : Nat) :
     preprocessStr ⟨K, g, fs, incs⟩ fuel s path d true sc rd id = preprocessStr ⟨K, g, [], []⟩ fuel s path d true sc rd id :=
   C10_ignore_include_never_reads_files K g fs [] incs [] fuel s path d sc rd id
+
+
+/-- **the returned define table is a map**: its keys are pairwise different for every successful run — every input, flags, fuel and every
+    caller table, even one that lists a name twice (the seeding inserts resolve duplicates the way `HashMap::insert` does). So modelling
+    `HashMap<String, Option<Define>>` as an association list loses nothing: `get?` finds THE entry of a name (`C11_get_insert_same/other`). -/
+theorem C11_table_is_a_map (C : Cfg) (fuel : Nat) (s path : Bytes) (d : Defines) (ii sc : Bool) (rd id : Nat) (o : POut) (d' : Defines)
+    (h : preprocessStr C fuel s path d ii sc rd id = .ok (o, d')) : (d'.map (·.1)).Nodup :=
+  (walk_keys C fuel).1 s path d ii sc rd id o d' h
 
 end Sv
